@@ -240,6 +240,8 @@ def ref_call(name, args):
         items = args[0].items
         desc = '>' in args[1].feel
         kinds = set(i.kind for i in items)
+        if kinds - {'num', 'str'} or '.a' in args[1].feel:
+            raise KeyError          # items sorted by a key: the Coq model only
         if len(kinds) > 1 or (kinds and kinds <= {'null', 'boolean', 'list'}):
             raise KeyError
         key = (lambda v: Decimal(v.feel)) if kinds == {'num'} else (lambda v: [ord(ch) for ch in v.feel[1:-1]])
@@ -278,7 +280,9 @@ def coq_ref_term(name, args):
     if name == 'sort' and len(args) == 2 and args[1].kind == 'function':
         body = args[1].feel
         arity = int(args[1].coq.split()[1].split('%')[0])      # (VFun k%N)
-        rel = 'v_lt' if body.endswith('x < y') else 'v_gt' if body.endswith('x > y') else '(fun x _ => x)' if body.endswith(') x') else None
+        bykey = '(fun x y => %s (b_get_value x (VStr [97%%N])) (b_get_value y (VStr [97%%N])))'      # x.a on a context
+        rel = ('v_lt' if body.endswith('x < y') else 'v_gt' if body.endswith('x > y') else '(fun x _ => x)' if body.endswith(') x') else
+               bykey % 'v_lt' if body.endswith('x.a < y.a') else bykey % 'v_gt' if body.endswith('x.a > y.a') else None)
         if rel is None:
             return None
         return 'b_sort %s %d%%N %s' % (args[0].coq, arity, rel)
@@ -475,6 +479,11 @@ def gen_cases(ctx):
                   [num('3'), num('1'), num('2.0'), num('1.0'), num('2')]):
         add('sort', lstv(*items), lt)
         add('sort', lstv(*items), gt)
+    # contexts sorted by one entry: distinct items tie, the input order of the tied items must be kept
+    rows = [cx(a=num(a), b=num(str(i))) for i, a in enumerate(['2', '1', '2.0', '1', '3', '1.0', '2'])]
+    for k in (2, 4, 7):
+        add('sort', lstv(*rows[:k]), fun(['x', 'y'], 'x.a < y.a'))
+        add('sort', lstv(*rows[:k]), fun(['x', 'y'], 'x.a > y.a'))
     add('sort', lstv(), lt)
     add('sort', num('1'), lt)
     add('sort', lstv(num('1')), fun(['x'], 'x'))
